@@ -58,9 +58,9 @@ theorem cancelled_timeout_is_noop (E : Env) (m : Id) (inc : Nat) (c : Ctx) (sm :
     cases c with
     | mk s eff orc => cases s; simp [adjustActive, h2]
   unfold handleTimer
-  simp only [beq_self_eq_true, ↓reduceIte, bind_run, getS_run, membersApplyExistingIf, happ, setS_run, pure_run, hsame]
+  simp only [beq_self_eq_true, ↓reduceIte, bind_run, getS_run, applyExistingReport, membersApplyExistingIf, happ, setS_run, pure_run, hsame]
   rw [unsuccessful_summary_is_silent E sm _ true c h1 h2 h3]
-  simp only []
+  simp only [pure_run]
   unfold adjustConnectionState
   simp only [bind_run, getS_run]
   cases hcn : c.s.conn with
